@@ -35,6 +35,7 @@ type Scenario struct {
 	GCAt     [][]int  `json:"gc_at_events,omitempty"`
 	KeyCache int      `json:"key_cache,omitempty"`
 	Methods  []string `json:"methods_on_one_parser,omitempty"` // entry "mixed"
+	Reset    bool     `json:"reset_between_docs,omitempty"`
 	Value    string   `json:"go_value,omitempty"`
 }
 
@@ -80,6 +81,7 @@ func unfoldAlias(c *simkit.Choices, x *simkit.Ctx) *simkit.Violation {
 	if c.N(4) == 0 {
 		sc.KeyCache = 1 + c.N(4)
 	}
+	sc.Reset = c.N(3) == 0 // Unfolder.Reset() between documents, as its doc comment recommends
 	uv := 0
 	if c.N(5) == 0 {
 		uv = 1 + c.N(model.NumUnfolderVariants-1)
@@ -89,8 +91,11 @@ func unfoldAlias(c *simkit.Choices, x *simkit.Ctx) *simkit.Violation {
 		}
 	}
 	var docs [][]byte
+	var sources []interface{}
 	for i := 0; i < nd; i++ {
-		evs := reuse.RecordFold(te.Gen(c))
+		srcVal := te.Gen(c)
+		sources = append(sources, srcVal)
+		evs := reuse.RecordFold(srcVal)
 		if evs == nil {
 			st.Probe("value-not-foldable")
 			return nil
@@ -167,6 +172,14 @@ func unfoldAlias(c *simkit.Choices, x *simkit.Ctx) *simkit.Violation {
 			return nil // the benign run itself fails: not an aliasing question
 		}
 		ref = append(ref, val)
+		// ground truth for the whole chain value -> fold -> independent writer
+		// -> parser -> unfold, for the types whose round trip is exact on the
+		// pinned tree: a wrong pointer conversion on the fold or unfold side
+		// shows here even if it is wrong in the same way in every environment
+		if uv == 0 && te.ExactRoundTrip() && len(sources) == len(docs) && !model.DeepEqLooseZero(sources[len(ref)-1], val) {
+			return &simkit.Violation{Kind: "round-trip-value-differs", Site: string(f) + "/" + te.Name,
+				Detail: fmt.Sprintf("value -> Fold -> %s document -> Parse -> Unfold: source %s | result %s", f, model.Render(sources[len(ref)-1]), model.Render(val)), Scenario: sc}
+		}
 	}
 
 	// hostile run
@@ -280,6 +293,9 @@ func unfoldAlias(c *simkit.Choices, x *simkit.Ctx) *simkit.Violation {
 				return
 			}
 			keep = append(keep, kept{get: get, snap: model.DeepCopy(get())})
+			if sc.Reset {
+				u.Reset()
+			}
 		}
 		// everything the library might still alias is gone now
 		runtime.GC()
